@@ -175,6 +175,30 @@ def check_case(case):
             groups = sorted(distinct.values(), key=len)
             out["violations"].append((f"api-disagree/{opn}/{tag}",
                                       f"filter={flt!r} columns={columns!r}: read APIs disagree; minority {groups[0]!r} vs {groups[-1][:3]!r}"))
+        # (4) metamorphic set laws (hold under ANY consistent equality, so they also apply where the reference is silent, e.g. NaN in the set):
+        #     x in [a, b]  ==  (x in [a]) union (x in [b])        x not_in [a, b]  ==  (x not_in [a]) intersect (x not_in [b])
+        for col, cond in flt.items():
+            if len(flt) != 1 or not (isinstance(cond, tuple) and len(cond) == 2 and _opname(cond) in ("in", "not_in")):
+                continue
+            vals = [x for x in cond[1] if x is not None]
+            if len(vals) < 2 or klass != "same":
+                continue
+            out["labels"].append("set-law")
+            try:
+                whole = rows_multiset(run_read(t, "scan", {col: (cond[0], vals)}, None, None))
+                parts = [rows_multiset(run_read(t, "scan", {col: (cond[0], [x])}, None, None)) for x in vals]
+            except Exception:
+                continue
+            if _opname(cond) == "in":
+                import functools
+
+                combined = functools.reduce(lambda a, b: a | b, parts)
+            else:
+                import functools
+
+                combined = functools.reduce(lambda a, b: a & b, parts)
+            if whole != combined:
+                out["violations"].append((f"set-law/{_opname(cond)}/{tag}", f"column {col}: {cond[0]} {vals!r} returns {sum(whole.values())} rows but combining the single-value filters gives {sum(combined.values())}"))
         # (1) reference
         if silent is None and ref is not None:
             for k, r in returned.items():
@@ -242,15 +266,76 @@ def check_malformed(case):
     return out
 
 
+def run_setlaws(task):
+    """Exhaustive small domain: one double column holding {NaN, 0.0, -0.0, 1.0, 2.5, NULL} spread over 3 files; every in / not_in value set of size
+    1-3 over {NaN, 0.0, -0.0, 1.0, 2.0, NULL}: all read APIs agree, and the union / intersection laws hold against the single-value filters."""
+    import functools
+    import itertools
+
+    res = Result()
+    nan = float("nan")
+    fields = [{"id": 4, "name": "x", "type": task["type"], "required": False}, {"id": 9, "name": "rid", "type": "long", "required": False}]
+    data = [[nan, 0.0, 1.0], [None, -0.0, nan], [2.5, 1.0, None]]
+    cand = [nan, 0.0, -0.0, 1.0, 2.0, None]
+    with scratch_dir("c12s") as d:
+        t = new_table(d + "/t", fields)
+        rid = 0
+        for f in data:
+            rows = []
+            for v in f:
+                rid += 1
+                rows.append({"x": v, "rid": rid})
+            t.append_records(rows)
+        single = {}
+        for op in ("in", "not_in"):
+            for i, v in enumerate(cand):
+                single[(op, i)] = rows_multiset(run_read(t, "scan", {"x": (op, [v])}, None, None))
+        for op in ("in", "not_in"):
+            for k in (1, 2, 3):
+                for combo in itertools.combinations(range(len(cand)), k):
+                    vals = [cand[i] for i in combo]
+                    flt = {"x": (op, vals)}
+                    case = {"kind": "setlaw", "type": task["type"], "op": op, "set": vals}
+                    results = {}
+                    for api, ver in COMBOS:
+                        try:
+                            results[(api, ver)] = rows_multiset(run_read(t, api, flt, None, ver))
+                        except Exception as e:  # noqa
+                            results[(api, ver)] = ("raise", type(e).__name__)
+                    distinct = {repr(sorted(r.items())) if not isinstance(r, tuple) else repr(r) for r in results.values()}
+                    res.case(key=f"{task['type']}|{op}|{jsonable_key(vals)}", nontrivial=True, labels=["set-law", "set-law-exhaustive"], sample=case if k == 2 and combo[0] == 0 else None)
+                    if len(distinct) > 1:
+                        res.violation(f"api-disagree/{op}/setlaw", f"{op} {vals!r}: read APIs disagree", case)
+                        continue
+                    whole = results[("scan", None)]
+                    if isinstance(whole, tuple):
+                        res.violation(f"raises/{op}/setlaw", f"{op} {vals!r} raised {whole[1]}", case)
+                        continue
+                    parts = [single[(op, i)] for i in combo]
+                    combined = functools.reduce((lambda a, b: a | b) if op == "in" else (lambda a, b: a & b), parts)
+                    if whole != combined:
+                        res.violation(f"set-law/{op}/nan" if any(isinstance(v, float) and v != v for v in vals) else f"set-law/{op}/plain",
+                                      f"{task['type']} column: {op} {vals!r} returns rids {sorted(dict(r)['rid'][1] for r in whole)} but combining the single-value filters gives {sorted(dict(r)['rid'][1] for r in combined)}", case)
+    res.extra["exhaustive_setlaw_domain"] = True
+    return res
+
+
+def jsonable_key(vals):
+    return "|".join("nan" if isinstance(v, float) and v != v else repr(v) for v in vals)
+
+
 def plan(tier, seed):
     n = 300 if tier == "quick" else 4000
     m = 100 if tier == "quick" else 1000
     tasks = [{"kind": "filter", "n": n, "seed": seed * 1000 + s, "tier": tier} for s in range(16)]
     tasks += [{"kind": "malformed", "n": m, "seed": seed * 1000 + 100 + s, "tier": tier} for s in range(4)]
+    tasks += [{"kind": "setlaws", "type": "double"}, {"kind": "setlaws", "type": "float"}]
     return tasks
 
 
 def run_task(task):
+    if task["kind"] == "setlaws":
+        return run_setlaws(task)
     res = Result()
     shrink = task.get("tier") == "thorough"
     if task["kind"] == "filter":
@@ -276,6 +361,14 @@ def _fix_filter(flt):
 
 
 def replay(case):
+    if case.get("kind") == "setlaw":
+        r = run_setlaws({"type": case["type"]})
+        seen, out = set(), []
+        for v in r.violations:
+            if v["bucket"] not in seen:
+                seen.add(v["bucket"])
+                out.append({"bucket": v["bucket"], "what": v["what"]})
+        return out
     case = dict(case, filter=_fix_filter(case["filter"]))
     o = check_case(case) if case["kind"] == "filter" else check_malformed(case)
     return [{"bucket": b, "what": w} for b, w in o["violations"]]
